@@ -422,6 +422,30 @@ def flag_churn(s, rng):
     s.do(39, [])
 
 
+def big_batch(s, rng):
+    """one crawl batch large enough for the indexing generator to reach its yield points in the middle of a source's
+    target list (yield_frequency = 50 newly created pages), with repeated targets, a self link and a second source"""
+    if rng.random() > 0.1:
+        return
+    s.notes = getattr(s, "notes", [])
+    s.notes.append("big_batch")
+    site = b"s:http|h:com|h:bigbatch%d|" % rng.randint(0, 1)
+    n = rng.choice([49, 50, 51, 60, 101])
+    targets = [site + b"p:post%03d|" % i for i in range(n)]
+    src, src2 = site + b"p:archive|", site + b"p:post001|"
+    data = [[src, targets[: n // 2] + [src] + targets[n // 2:] + [targets[0]]], [src2, [targets[3], src, site + b"p:late|"]]]
+    if rng.random() < 0.5:
+        data.reverse()
+    s.do(5, [data])
+    for l in (src, src2, targets[0], targets[n // 2], targets[-1]):
+        s.do(33, [l, 1, 1, 1])
+        s.do(46, [l])
+    s.do(38, [])
+    s.do(37, [1])
+    s.do(37, [0])
+    s.do(35, [])
+
+
 def high_ids(s, rng):
     """a webentity whose id no longer fits one byte (the caller may choose the id when attaching a prefix), with nested own
     prefixes (the www variation) and a nested foreign webentity: the per-webentity queries on exactly that one"""
@@ -455,6 +479,12 @@ def high_ids(s, rng):
     s.do(34, [1, 0, 0])
     s.do(34, [1, 0, 1])
     s.do(36, [])
+    if W in wes:
+        ps = list(wes[W])
+        for k in (1, 2):
+            s.paginate_pages(W, ps, k, rng.randint(0, 1), True)
+            for internal, outbound in ((1, 0), (0, 1), (1, 1)):
+                s.paginate_links(W, ps, internal, outbound, k, True)
 
 
 def many_ids(s, rng):
@@ -597,9 +627,9 @@ def reg(pid, theorems, focus, nq=480, nt=30000, nw=25, depth=1, mixkw=None, extr
     PROPS[pid] = dict({"theorems": theorems, "runner": hist_runner(cfgq, cfgt, nq, nt, RULE % nw, sweep)}, **more)
 
 
-reg("C01", ["C01_pages_perm", "C01_count_pages", "C01_reports"], K.FACET_OPS["C01"], weird=0.3, sweep=long_sweep)
+reg("C01", ["C01_pages_perm", "C01_count_pages", "C01_reports"], K.FACET_OPS["C01"], weird=0.3, sweep=long_sweep, extra=[big_batch])
 reg("C02", ["C02_find_known", "C02_windup", "C02_stem_roundtrip"], K.FACET_OPS["C02"], sweep=both_sweeps(helper_sweep(["chunks", "lru"]), perm_sweep(5), long_sweep), weird=0.45, extra=[flag_churn])
-reg("C03", ["C03_out", "C03_in", "C03_count"], K.FACET_OPS["C03"], mixkw={"add_links": 30, "batch": 20})
+reg("C03", ["C03_out", "C03_in", "C03_count"], K.FACET_OPS["C03"], mixkw={"add_links": 30, "batch": 20}, extra=[big_batch])
 reg("C04", ["C04_resolve", "C04_prefmap"], K.FACET_OPS["C04"],
     mixkw={"create_we": 16, "delete_we": 10, "add_prefix": 12, "remove_prefix": 10, "move_prefix": 8}, sweep=long_prefix_sweep)
 reg("C05", ["C05_we_pages", "C05_partition", "C05_exactly_once"], K.FACET_OPS["C05"], mixkw={"create_we": 16, "add_prefix": 10},
@@ -610,9 +640,9 @@ reg("C07", ["C07_net"], K.FACET_OPS["C07"], depth=2, nq=320, mixkw={"add_links":
 reg("C08", ["C08_pagelinks"], K.FACET_OPS["C08"], mixkw={"add_links": 30, "batch": 20, "create_we": 14}, extra=[high_ids])
 reg("C09", ["C09_token_roundtrip", "C09_sorted_pages", "C09_chunks", "C09_stable_chain"], K.FACET_OPS["C09"],
     mixkw={"add_page": 50, "add_pages": 20, "create_we": 14}, sweep=both_sweeps(helper_sweep(["token"]), perm_sweep(6)),
-    extra=[deep_tree, multi_prefix, mutating_pagination])
+    extra=[deep_tree, multi_prefix, mutating_pagination, high_ids])
 reg("C10", ["C10_chunks", "C10_same_links"], K.FACET_OPS["C10"], mixkw={"add_links": 35, "batch": 20, "create_we": 14},
-    extra=[deep_tree, multi_prefix])
+    extra=[deep_tree, multi_prefix, high_ids])
 reg("C12", ["C12_fresh"], set(), mixkw={"create_we": 16, "delete_we": 10, "add_rule": 10, "reopen": 10}, extra=[many_ids, second_index])
 reg("C13", ["C13_parents", "C13_children"], K.FACET_OPS["C13"], mixkw={"create_we": 18, "add_prefix": 12, "move_prefix": 8, "add_rule": 10},
     extra=[high_ids])
@@ -734,7 +764,7 @@ def c17_cases(tier, seed):
     schemes = [b"http", b"https", b"ftp", b"httpx"]
     ports = [None, b"80"]
     hostsets = [[]]
-    names = [b"com", b"a", b"www", b"Www"]
+    names = [b"com", b"a", b"www", b"Www", b"oldwww"]
     for n in (1, 2, 3):
         for combo in itertools.product(names, repeat=n):
             hostsets.append(list(combo))
